@@ -18,7 +18,7 @@ pub fn run(args: &Args) -> i32 {
   let rule = match prop {
     Prop::C01 => "random DATA/DATAFRAG/GAP/HEARTBEAT histories from 1-3 writers with drop/dup/reorder and interleaved read/take ops on 4 reader flavours; distinct = hash of the post-fault arrival sequence (kind,writer,sn,frag); non-trivial = history had >=1 loss-or-dup and >=1 reorder and handed over >=1 sample. Second leg (counters two_readers:*): two reliable DataReaders of one participant on one topic (one TopicCache, one MessageReceiver) matched with one writer, first transmissions to both or lost, repairs and GAPs addressed to one reader (or, in a third of the histories, everything addressed to both), second reader optionally joining late as TransientLocal or Volatile, fault-free suffix; each reader on its own must obey order / once / no-holes / complete",
     Prop::C03 => "same histories; every captured ACKNACK/NACKFRAG is decoded by an independent walker and judged against a set-logic shadow of what was injected; distinct = arrival-sequence hash; non-trivial = >=1 ACKNACK observed after >=1 fault",
-    Prop::C05 => "reader leg: same histories, fragments from the harness's own fragmenter (1-3 per submessage, fragment sizes 8-64, permuted/duplicated/interleaved across samples and writers); writer+reader leg: real Writer fragmenting (sizes 64/100/256/1024) over a faulty link into the real Reader; distinct = arrival-sequence hash (reader leg) / event+fault hash (link leg); non-trivial = >=1 fragmented sample delivered after reordering, duplication or loss",
+    Prop::C05 => "reader leg: same histories, fragments from the harness's own fragmenter (1-3 per submessage, fragment sizes 8-64, permuted/duplicated/interleaved across samples and writers); writer+reader leg: real Writer fragmenting (sizes 64/100/256/1024) over a faulty link into the real Reader; writer leg 'raw-change-fragmenting': values and DISPOSE-by-key changes with serialized sizes around 1-4 fragment sizes handed to the real Writer, its DATAFRAGs reassembled by the harness from their own fields and compared with the bytes handed in; distinct = arrival-sequence hash (reader leg) / event+fault hash (link leg); non-trivial = >=1 fragmented sample delivered after reordering, duplication or loss",
   };
   let mut rep = Report::new(args, rule);
   rep.assume("reader QoS Reliable, KeepAll, max_samples 1e6 so resource limits are never exceeded (premise of C01)");
@@ -114,6 +114,104 @@ pub fn run(args: &Args) -> i32 {
     let link_acc = crate::c_link::link_cases(args, crate::link::LProp::C05, args.scale(15_000, 600_000), 0x0515);
     acc.merge(link_acc);
     rep.require("link_fragmented_samples_delivered", 500);
+    // writer leg for changes the VSample DataWriter cannot make: a value or a DISPOSE carrying its serialized key,
+    // of any size around the fragment limit, handed to the real Writer; what it sends is reassembled by the
+    // harness from the DATAFRAG fields alone and must be the bytes that were handed in
+    let n = args.scale(6000, 300_000);
+    let raw_acc = par_cases(args.threads(), n, |i, acc| {
+      if replay_case.map_or(false, |rc| rc != i || replay_leg.as_deref() != Some("raw-change-fragmenting")) {
+        return;
+      }
+      use rustdds::verif::wbench::{WbCfg, WriterBench};
+      let mut rng = Rng::derive(seed, 0x0525, i);
+      let frag_size = *rng.pick(&[64u16, 100, 256, 1024]);
+      let mut wb = WriterBench::new(WbCfg { reliable: true, history: 0, transient_local: false, frag_size: frag_size as usize, writer_key: [0, 0, 0x55] });
+      wb.match_reader(crate::wtr::reader_guid(0), true, "127.0.0.1:33551".parse().unwrap());
+      let nchanges = 1 + rng.below(3) as i64;
+      for sn in 1..=nchanges {
+        let dispose = rng.chance(1, 2);
+        let k = 1 + rng.below(4);
+        let len = match rng.below(4) {
+          0 => (k * frag_size as u64) as usize,            // body = whole fragments (sample = that + 4)
+          1 => (k * frag_size as u64 - 4) as usize,        // sample = whole fragments
+          2 => (k * frag_size as u64 - 4 + 1 + rng.below(7)) as usize,
+          _ => frag_size as usize + rng.below(4 * frag_size as u64) as usize,
+        };
+        let body: Vec<u8> = (0..len).map(|j| (j as u8) ^ (sn as u8).wrapping_mul(37) ^ 0x5a).collect();
+        let sent = wb.write_raw(dispose, body.clone(), sn);
+        let tag = json!({"seed": seed, "stream": 0x0525, "index": i, "leg": "raw-change-fragmenting"});
+        let replay = || json!({"case": tag, "fragment_size": frag_size, "change": if dispose { "dispose-by-key" } else { "value" }, "serialized_length_without_header": len, "sn": sn});
+        let what = if dispose { "dispose-by-key" } else { "value" };
+        let mut expect = vec![0u8, 1, 0, 0];
+        expect.extend_from_slice(&body);
+        acc.evaluations += 1;
+        acc.count(&format!("raw_changes_written_{}", what.replace('-', "_")), 1);
+        let mut frags: std::collections::BTreeMap<u32, Vec<u8>> = std::collections::BTreeMap::new();
+        let mut sizes = std::collections::BTreeSet::new();
+        let mut whole: Option<Vec<u8>> = None;
+        for dg in &sent {
+          match crate::wire::parse(&dg.bytes) {
+            Err(e) => {
+              acc.violate(format!("C05/writer:sent-datagram-does-not-parse:{what}"), json!({"err": e, "bytes": crate::ctx::hex(&dg.bytes[..dg.bytes.len().min(64)])}), replay());
+            }
+            Ok(m) => {
+              for sub in m.subs {
+                match sub {
+                  crate::wire::Sub::DataFrag { sn: s, frag_start, frags_in_submsg, frag_size: fs, sample_size, bytes, .. } if s == sn => {
+                    sizes.insert((fs, sample_size));
+                    for f in 0..frags_in_submsg as usize {
+                      let a = f * fs as usize;
+                      let b = ((f + 1) * fs as usize).min(bytes.len());
+                      if a < bytes.len() {
+                        frags.insert(frag_start + f as u32, bytes[a..b].to_vec());
+                      }
+                    }
+                  }
+                  crate::wire::Sub::Data { sn: s, payload, .. } if s == sn => whole = Some(payload),
+                  _ => {}
+                }
+              }
+            }
+          }
+        }
+        if expect.len() <= frag_size as usize {
+          // fits into one DATA (RTPS pads to 4 bytes)
+          match whole {
+            Some(p) if p.len() >= expect.len() && p[..expect.len()] == expect[..] && p.len() < expect.len() + 4 => acc.count("raw_changes_sent_whole_and_equal", 1),
+            other => acc.violate(format!("C05/writer:unfragmented-change-sent-with-other-bytes:{what}"), json!({"sent_len": other.map(|p| p.len()), "expected_len": expect.len()}), replay()),
+          }
+          continue;
+        }
+        if sizes.len() != 1 {
+          acc.violate(format!("C05/writer:fragments-of-one-sample-disagree-on-sizes-or-none-sent:{what}"), json!({"sizes": sizes, "datagrams": sent.len()}), replay());
+          continue;
+        }
+        let (fs, sample_size) = *sizes.iter().next().unwrap();
+        let nfr = (sample_size as usize + fs as usize - 1) / fs as usize;
+        let mut got = vec![];
+        let mut complete = true;
+        for f in 1..=nfr as u32 {
+          match frags.get(&f) {
+            Some(b) => got.extend_from_slice(b),
+            None => complete = false,
+          }
+        }
+        got.truncate(sample_size as usize);
+        if !complete || got != expect {
+          acc.violate(
+            format!("C05/writer:fragmented-change-reassembles-to-other-bytes:{what}"),
+            json!({"announced_sample_size": sample_size, "handed_in_size": expect.len(), "fragments_sent": frags.len(), "fragments_needed": nfr, "reassembled_len": got.len(), "first_difference_at": got.iter().zip(expect.iter()).position(|(a, b)| a != b)}),
+            replay(),
+          );
+        } else {
+          acc.count("raw_changes_fragmented_and_reassembled_equal", 1);
+          acc.distinct.insert(crate::prng::fnv64(format!("{what}{len}{frag_size}").as_bytes()));
+        }
+      }
+    });
+    acc.merge(raw_acc);
+    rep.require("raw_changes_fragmented_and_reassembled_equal", 2000);
+    rep.require("raw_changes_written_dispose_by_key", 1000);
   }
   match prop {
     Prop::C01 => rep.require("samples_handed_over", 1000),
